@@ -231,6 +231,12 @@ Fixpoint strace (eager : bool) (st : sstate) (steps : list (step * bool)) : list
   | (p, v) :: r => (p, snd (sstep eager st p v)) :: strace eager (fst (sstep eager st p v)) r
   end.
 
+Fixpoint srun (eager : bool) (st : sstate) (steps : list (step * bool)) : sstate :=
+  match steps with
+  | [] => st
+  | (p, v) :: r => srun eager (fst (sstep eager st p v)) r
+  end.
+
 (* ---- the engine's MVCC verdicts, fed to the spec as its COMMIT choices ---- *)
 Definition mverdict (st : mstate) (p : step) : bool :=
   match tg (fst p) (m_sess st) with
